@@ -409,6 +409,27 @@ def sched_check(binpath, ptype, sd, runs):
     return info
 
 
+def apalache_accounting():
+    """C16 for unbounded histories: the inductive invariant of spec/Accounting.tla, discharged by Apalache
+    (the arena machine's refinement of that abstraction is the step property PropAcct of MC.tla)."""
+    d = os.path.join(WORK, "apalache_acct")
+    shutil.rmtree(d, ignore_errors=True)
+    os.makedirs(d)
+    shutil.copy(os.path.join(SPEC, "Accounting.tla"), d)
+    out = {}
+    for name, args in (("base", ["--init=Init", "--inv=Inv", "--length=0"]), ("step", ["--init=IndInit", "--inv=Inv", "--length=1"])):
+        try:
+            p = subprocess.run(["apalache-mc", "check"] + args + ["Accounting.tla"], cwd=d, capture_output=True, text=True, timeout=600)
+            out[name] = "ok" if "EXITCODE: OK" in p.stdout else "failed: " + p.stdout[-300:]
+        except Exception as e:  # optional extra: never turns into a violation
+            out[name] = f"not run ({e})"
+    shutil.rmtree(d, ignore_errors=True)
+    if any(str(v).startswith("failed") for v in out.values()):
+        raise ToolError(f"the inductive invariant of Accounting.tla is not inductive: {out}")
+    out["meaning"] = "nslots = ntree + nfree and nslots = high-water mark of nodes hold in every reachable state of the counter abstraction, for histories of any length"
+    return out
+
+
 def alg_laws(max_tw=3):
     """TLC checks the laws of Bits.tla exhaustively for all widths up to max_tw."""
     d = os.path.join(WORK, "av_laws")
